@@ -30,7 +30,8 @@ LastOf(s) == IF s = <<>> THEN <<>> ELSE <<s[Len(s)]>>
 
 (* the writer accepts a ref iff it has a name and its update index is within the limits; *)
 (* a log iff it has a name and (exact messages, or a single-line message)                *)
-Accept(c, exact) == IF c.kind = "ref" THEN ~c.emptyname /\ c.inrange ELSE ~c.emptyname /\ (exact \/ c.single)
+(* ... and a record that is larger than a whole block is refused                             *)
+Accept(c, exact) == ~c.oversize /\ (IF c.kind = "ref" THEN ~c.emptyname /\ c.inrange ELSE ~c.emptyname /\ (exact \/ c.single))
 
 TWrite ==
   /\ Is("write")
